@@ -175,3 +175,88 @@ silent('c01-mix-flip-branches', ['C01', 'C15'],
             and_expr.add_check(check)""")])
 silent('c01-empty-token-skip', ['C01', 'C02', 'C15'],
        [(P, "        if not tok or tok.isspace():", "        if not tok:")])
+
+# ------------------------------------------------------------------ C02
+fire('c02-revert-f1', 'C02',
+     [(P, """        if (len(self.values) != 1 or
+                self.tokens[0] in ('(', ')', 'and', 'or', 'not', 'string')):""",
+       """        if len(self.values) != 1:""")], 'C02.RESULT-TYPE')
+fire('c02-f1-partial', 'C02',
+     [(P, "self.tokens[0] in ('(', ')', 'and', 'or', 'not', 'string')):",
+       "self.tokens[0] in ('(', ')', 'and', 'or', 'not')):")],
+     'C02.RESULT-TYPE')
+fire('c02-revert-f2a-top', 'C02',
+     [(P, """    if rule is None or isinstance(rule, (list, tuple)):
+        return _parse_list_rule(rule)
+""", """    if True:
+        return _parse_list_rule(rule)
+""")], 'C02.TRUE-GUARD')
+fire('c02-revert-f2a-inner', 'C02',
+     [(P, """        elif not isinstance(inner_rule, (list, tuple)):
+            # Not a list of checks; fail closed
+            LOG.error('Failed to understand rule %s', inner_rule)
+            inner_rule = ['!']
+""", "")], 'C02.ITER-GUARD')
+fire('c02-len-lt-1', 'C02',
+     [(P, "        if (len(self.values) != 1 or",
+       "        if (len(self.values) < 1 or")], 'C02.REJECT')
+fire('c02-handler-true', 'C02',
+     [(P, """        # Fail closed
+        return _checks.FalseCheck()
+
+
+def parse_rule""", """        # Fail closed
+        return _checks.TrueCheck()
+
+
+def parse_rule""")], 'C02')
+fire('c02-split-handler-true', 'C02',
+     [(P, """        # If the rule is invalid, we'll fail closed
+        return _checks.FalseCheck()""",
+       """        # If the rule is invalid, we'll fail closed
+        return _checks.TrueCheck()""")], 'C02')
+fire('c02-no-try', 'C02',
+     [(P, """    try:
+        return state.result
+    except ValueError:
+        # Couldn't parse the rule
+        LOG.exception('Failed to understand rule %s', rule)
+
+        # Fail closed
+        return _checks.FalseCheck()""", """    return state.result""")],
+     'C02.RAISE-CATCH')
+fire('c02-wrong-handler-class', 'C02',
+     [(P, "    except ValueError:\n        # Couldn't parse",
+       "    except KeyError:\n        # Couldn't parse")], 'C02.RAISE-CATCH')
+fire('c02-empty-or-list-true', 'C02',
+     [(P, """    if not or_list:
+        return _checks.FalseCheck()""", """    if not or_list:
+        return _checks.TrueCheck()""")], 'C02.TRUE-GUARD')
+fire('c02-load-without-parse', 'C02',
+     [(POL, """        rules = {k: _parser.parse_rule(v) for k, v in parsed_file.items()}""",
+       """        rules = {k: v for k, v in parsed_file.items()}""")],
+     'C02.EACH-VALUE')
+fire('c02-no-handler-true', 'C02',
+     [(P, """        LOG.error('No handler for matches of kind %s', kind)
+        return _checks.FalseCheck()""",
+       """        LOG.error('No handler for matches of kind %s', kind)
+        return _checks.TrueCheck()""")], 'C02')
+fire('c02-passthrough', 'C02',
+     [(P, """    # Anything else (booleans, numbers, mappings) is not a rule
+    LOG.error('Failed to understand rule %s', rule)
+    # Fail closed
+    return _checks.FalseCheck()""",
+       """    return rule""")], 'C02')
+
+silent('c02-except-exception', ['C01', 'C02'],
+       [(P, "    except ValueError:\n        # Couldn't parse",
+         "    except Exception:\n        # Couldn't parse")])
+silent('c02-no-log', ['C01', 'C02'],
+       [(P, "        LOG.exception('Failed to understand rule %s', rule)\n\n        # Fail closed", "        # Fail closed")])
+silent('c02-len-spelling', ['C01', 'C02'],
+       [(P, """    # Empty rule defaults to True
+    if not rule:""", """    # Empty rule defaults to True
+    if rule is None or len(rule) == 0:""")])
+silent('c02-whitelist-result', ['C01', 'C02', 'C15'],
+       [(P, "self.tokens[0] in ('(', ')', 'and', 'or', 'not', 'string')):",
+         "self.tokens[0] not in ('check', 'and_expr', 'or_expr')):")])
